@@ -220,6 +220,14 @@ def step (w : State) (line : String) : State × String :=
        (match updProxy w p (fun x => { x with coll := updLink x.coll ln (fun l => { l with srcEOF := true }) }) with
         | some w' => fin w' | none => (w, "bad-op"))
      | none => (w, "bad-op no-conn"))
+  | ["closenw", c, who] =>
+    -- the same, observed at this instant (no timer has fired yet)
+    (match findConnProxy w c with
+     | some p =>
+       let ln := if who == "client" then upName c else downName c
+       (match updProxy w p (fun x => { x with coll := updLink x.coll ln (fun l => { l with srcEOF := true }) }) with
+        | some w' => finNow w' | none => (w, "bad-op"))
+     | none => (w, "bad-op no-conn"))
   | _ => (w, "bad-op")
 
 end Toxi.Driver.E6
